@@ -188,6 +188,7 @@ def mk_wf(s: dict):
             kw["times"] = s["times"]
         if s.get("interp") and s["interp"] != "PchipInterpolator":
             kw["interpolator"] = s["interp"]
+        kw.update(s.get("ikw") or {})  # extra keyword arguments of the interpolator
         if kwd:
             return InterpolatedWaveform(s["d"], values=s["values"], **kw)
         return InterpolatedWaveform(s["d"], s["values"], **kw)
@@ -331,6 +332,8 @@ class Interp:
                     name=op["name"], channel_id=cid, initial_target=it)
             if it is None and not op.get("it_explicit"):
                 return "declare_channel", (op["name"], cid), {}
+            if op.get("style") == "pos3":
+                return "declare_channel", (op["name"], cid, it), {}
             return "declare_channel", (op["name"], cid), dict(initial_target=it)
         if o == "detmap":
             dm = self.detmap(op)
@@ -396,6 +399,11 @@ class Interp:
             if kwstyle:
                 return "add_eom_pulse", (), dict(
                     channel=ch, duration=op["d"], phase=op["phase"], **kw)
+            if op.get("style") == "pos3" and kw:
+                # every given optional argument positionally (defaults fill the gaps)
+                full = [op.get("pps", 0.0), op.get("protocol", "min-delay"), op.get("cpd", False)]
+                last = max(i for i, k in enumerate(("pps", "protocol", "cpd")) if k in op)
+                return "add_eom_pulse", (ch, op["d"], op["phase"], *full[:last + 1]), {}
             return "add_eom_pulse", (ch, op["d"], op["phase"]), kw
         if o == "add_dmm":
             wf = mk_wf(op["wf"])
@@ -405,6 +413,8 @@ class Interp:
                 kw["protocol"] = op["protocol"]
             if kwstyle:
                 return "add_dmm_detuning", (), dict(waveform=wf, dmm_name=name, **kw)
+            if op.get("style") == "pos3" and "protocol" in op:
+                return "add_dmm_detuning", (wf, name, op["protocol"]), {}
             return "add_dmm_detuning", (wf, name), kw
         if o == "delay":
             ch = self.chan(op["ch"])
@@ -445,6 +455,9 @@ class Interp:
             if kwstyle:
                 return name, (), dict(
                     channel=ch, amp_on=op["amp_on"], detuning_on=op["det_on"], **kw)
+            if op.get("style") == "pos3" and kw:
+                extra = [op.get("opt_off", 0.0)] + ([op["cpd"]] if "cpd" in op else [])
+                return name, (ch, op["amp_on"], op["det_on"], *extra), {}
             return name, (ch, op["amp_on"], op["det_on"]), kw
         if o == "disable_eom":
             ch = self.chan(op["ch"])
@@ -453,6 +466,8 @@ class Interp:
                 kw["correct_phase_drift"] = op["cpd"]
             if kwstyle:
                 return "disable_eom_mode", (), dict(channel=ch, **kw)
+            if op.get("style") == "pos3" and "cpd" in op:
+                return "disable_eom_mode", (ch, op["cpd"]), {}
             return "disable_eom_mode", (ch,), kw
         if o == "measure":
             if "basis" not in op:
